@@ -1,0 +1,34 @@
+//go:build verif
+
+package bchutil
+
+// Exports of unexported functions for the verification harness (build tag "verif").
+// Nothing in this file is compiled into a normal build.
+
+func VerifPolyMod(v []byte) uint64 { return polyMod(v) }
+
+func VerifConvertBits(data []byte, fromBits, toBits uint, pad bool) ([]byte, error) {
+	return convertBits(data, fromBits, toBits, pad)
+}
+
+func VerifPackAddressData(t AddressType, hash []byte) ([]byte, error) {
+	return packAddressData(t, hash)
+}
+
+func VerifCheckEncodeCashAddress(input []byte, prefix string, t AddressType) string {
+	return checkEncodeCashAddress(input, prefix, t)
+}
+
+func VerifCheckDecodeCashAddress(input string) ([]byte, string, AddressType, error) {
+	return checkDecodeCashAddress(input)
+}
+
+func VerifCreateChecksum(prefix string, payload []byte) []byte {
+	return createChecksum(prefix, payload)
+}
+
+func VerifVerifyChecksum(prefix string, payload []byte) bool {
+	return verifyChecksum(prefix, payload)
+}
+
+func VerifCharsetRev() [128]int8 { return CharsetRev }
